@@ -1,6 +1,6 @@
 (* Executable wrapper for the C10 correspondence. *)
 From Coq Require Import String List NArith Bool.
-From V Require Import lib.Sexp lib.PyStr model.Url model.ReqHead corr.Run_C14 gen.Gen_Body.
+From V Require Import lib.Sexp lib.PyStr model.Url model.ReqHead model.Tunnel corr.Run_C14 gen.Gen_Body gen.Gen_Inject.
 Import ListNotations.
 Local Open Scope N_scope.
 
@@ -37,6 +37,33 @@ Definition s_result (r : list N + err) : sexp :=
 Definition HOSTV : list N := str_of_string "h.example".
 Definition NBM : list str := match Gen_Body.methods_not_expecting_body with Some l => l | None => [] end.
 
+Definition or_nil {A} (o : option (list A)) : list A := match o with Some l => l | None => [] end.
+Definition or_false (o : option bool) : bool := match o with Some b => b | None => false end.
+
+(* level 5: ProxyManager("http://proxy.example:3128", proxy_headers=hs).request("GET", url) for an https URL: what the proxy reads.
+   The pool's _tunnel_host is the parsed host (already lower-case); the port defaults to 443. *)
+Definition run_tunnel (u : str) (hs : list (str * str)) : sexp :=
+  match parse_url (fun _ => None) u with
+  | Some pu =>
+      match Url.host pu with
+      | Some h =>
+          s_result (connect_head (or_false Gen_Inject.tunnel_validates) (or_nil Gen_Inject.tunnel_host_illegal_chars)
+                                 (or_nil Gen_Inject.method_allowed_chars) (or_nil Gen_Inject.tunnel_value_illegal_chars)
+                                 h (match Url.port pu with Some p => p | None => 443 end) hs)
+      | None => SL [SN 1; SN 1]
+      end
+  | None => SL [SN 1; SN 4]
+  end.
+
+(* level 4: HTTP2Connection.putheader(name, value): the name that is kept, or ValueError *)
+Definition run_h2 (n v : str) : sexp :=
+  if or_false Gen_Inject.h2_putheader_checks then
+    match h2_putheader (or_false Gen_Inject.h2_name_anchored) (or_nil Gen_Inject.h2_name_chars) n v with
+    | Some l => SL [SN 0; s_str l]
+    | None => SL [SN 1; SN 1]
+    end
+  else SL [SN 0; s_str (ascii_lower n)].
+
 (* case: (level method url headers ua) *)
 Definition run (c : sexp) : sexp :=
   match c with
@@ -45,6 +72,8 @@ Definition run (c : sexp) : sexp :=
       | Some m, Some u, Some hs, Some ua =>
           match level with
           | 1 => s_result (request_head NBM HOSTV ua m u hs)
+          | 4 => run_h2 m u
+          | 5 => run_tunnel u hs
           | 2 => match encode_target u with
                  | Some t => s_result (request_head NBM HOSTV ua m t hs)
                  | None => SL [SN 1; SN 4]
